@@ -223,6 +223,37 @@ fn families() -> Vec<Family> {
         Family { name: "list_append", kind: Kind::List, setup: LIST_SETUP, work: "for (i <- 0 til qn) qx append= i",
             check: ls, expect: |s| format!("[{},{}]", 2 * s.n, tri(s.n)), check_alias: la, expect_alias: orig_list,
             nelem: n_of, k: n_of, copied: flat, in_model: true },
+        // the collection itself used as a condition / scrutinee around its own mutation: the value the
+        // condition produced must not be held while the body runs (it would be a second holder)
+        Family { name: "cond_if", kind: Kind::List, setup: LIST_SETUP, work: "for (i <- 0 til qn) (if (qx) qx[i] = i)",
+            check: ls, expect: |s| format!("[{},{}]", s.n, tri(s.n)), check_alias: la, expect_alias: orig_list,
+            nelem: n_of, k: n_of, copied: flat, in_model: false },
+        Family { name: "cond_if_else", kind: Kind::List, setup: LIST_SETUP, work: "for (i <- 0 til qn) (if (qx) (qx append= i) else (qx append= 0))",
+            check: ls, expect: |s| format!("[{},{}]", 2 * s.n, tri(s.n)), check_alias: la, expect_alias: orig_list,
+            nelem: n_of, k: n_of, copied: flat, in_model: false },
+        Family { name: "cond_and", kind: Kind::List, setup: LIST_SETUP, work: "for (i <- 0 til qn) (qx and (qx[i] = i))",
+            check: ls, expect: |s| format!("[{},{}]", s.n, tri(s.n)), check_alias: la, expect_alias: orig_list,
+            nelem: n_of, k: n_of, copied: flat, in_model: false },
+        Family { name: "cond_guard", kind: Kind::List, setup: LIST_SETUP, work: "for (i <- 0 til qn; if qx) qx[i] = i",
+            check: ls, expect: |s| format!("[{},{}]", s.n, tri(s.n)), check_alias: la, expect_alias: orig_list,
+            nelem: n_of, k: n_of, copied: flat, in_model: false },
+        Family { name: "cond_while", kind: Kind::List, setup: LIST_SETUP, work: "qi := 0; while (qx and qi < qn) (qx[qi] = qi; qi += 1)",
+            check: ls, expect: |s| format!("[{},{}]", s.n, tri(s.n)), check_alias: la, expect_alias: orig_list,
+            nelem: n_of, k: n_of, copied: flat, in_model: false },
+        Family { name: "cond_switch", kind: Kind::List, setup: LIST_SETUP, work: "for (i <- 0 til qn) (switch (qx) case [] -> 0 case _ -> (qx[i] = i))",
+            check: ls, expect: |s| format!("[{},{}]", s.n, tri(s.n)), check_alias: la, expect_alias: orig_list,
+            nelem: n_of, k: n_of, copied: flat, in_model: false },
+        Family { name: "cond_switch_pop", kind: Kind::List, setup: LIST_SETUP, work: "for (i <- 0 til qn) (switch (qx) case [] -> 0 case [_] -> (qx[0] = 1) case _: list -> (pop qx))",
+            check: ls, expect: |_| "[1,1]".into(), check_alias: la, expect_alias: orig_list,
+            nelem: n_of, k: n_of, copied: flat, in_model: false },
+        // `x ++= y` where the right operand has another holder (a variable, a row of another list): the LEFT
+        // operand is still uniquely owned and must be extended in place
+        Family { name: "concat_shared_rhs", kind: Kind::List, setup: "qx := [0] ** qn; qrhs := [1, 2]", work: "for (i <- 0 til qn) qx ++= qrhs",
+            check: ls, expect: |s| format!("[{},{}]", 3 * s.n, 3 * s.n), check_alias: la, expect_alias: orig_list,
+            nelem: n_of, k: n_of, copied: flat, in_model: false },
+        Family { name: "concat_rows_flatten", kind: Kind::List, setup: "qx := [0] ** qn; qgrid := [[1, 2]] ** qn", work: "for (row <- qgrid) qx ++= row",
+            check: ls, expect: |s| format!("[{},{}]", 3 * s.n, 3 * s.n), check_alias: la, expect_alias: orig_list,
+            nelem: n_of, k: n_of, copied: flat, in_model: false },
         Family { name: "list_concat", kind: Kind::List, setup: LIST_SETUP, work: "for (i <- 0 til qn) qx ++= [i]",
             check: ls, expect: |s| format!("[{},{}]", 2 * s.n, tri(s.n)), check_alias: la, expect_alias: orig_list,
             nelem: n_of, k: n_of, copied: flat, in_model: false },
